@@ -143,8 +143,43 @@ def cli_layer(chk, prop, w, profiles, replay=None):
                            "driver; argument classes (decimal or not, size class, option validity) are known by construction")
 
 
+def squfof_layer(chk, w, replay=None):
+    """Shanks's square forms (Algo::Squfof): spec/squfof/SqufofFn.tla is an EXACT model of squfof::squfof for 50 n < 2^31.
+    (M) the loops as a state machine over every input of the domain factor_impl guarantees (no prime factor below 53):
+    form identity, no division by zero, no unsigned underflow, genuine splits, agreement with the pure function; a
+    non-vacuity config outside the domain (k n a perfect square: division by zero) that TLC must reject.
+    (V) real calls in batches: Strict = a returned pair is a genuine split; Drift = it is the model's result."""
+    thorough = chk.tier == "thorough"
+    if replay and replay["event"].get("op") != "squfof_batch":
+        return
+    if not replay:
+        chk.add_mc(core.model_check("squfof/MC_Squfof.tla", "MC_Squfof_thorough.cfg" if thorough else "MC_Squfof.cfg", workers=4, timeout=2400))
+        r = core.model_check("squfof/MC_Squfof.tla", "MC_Squfof_any.cfg", workers=1, timeout=300, expect_error=True)
+        chk.add_mc(r, invariants_expected_to_hold=False)
+        if "NoDivZero" not in r["violated"]:
+            raise core.ToolError("Squfof: the non-vacuity configuration no longer fails")
+    tr = os.path.join(w, "squfof.ndjson")
+    core.run_driver(["rho", "--what", "squfof", "--seed", chk.seed, "--tier", chk.tier], tr, timeout=900)
+    if replay:
+        core.replay_filter(tr, replay)
+    res = core.validate_trace("squfof/SqufofTrace.tla", "SqufofTrace.cfg", tr, timeout=2400, tag="squfof",
+                              weight=lambda e: len(e.get("ns", [])))
+    chk.add_tv(res)
+    evs = core.read_ndjson(tr)
+    calls = sum(len(e.get("ns", [])) for e in evs)
+    if not replay and calls < 1000:
+        raise core.ToolError("squfof stage: too few calls (%d)" % calls)
+    chk.cov["squfof_model"] = {"exact_below": (1 << 31) // 50, "real_calls_compared_with_model": calls,
+                               "splits_returned": sum(1 for e in evs for r_ in e.get("rs", []) if r_ and r_[0] > 0),
+                               "none_returned": sum(1 for e in evs for r_ in e.get("rs", []) if not r_),
+                               "panics": sum(1 for e in evs for r_ in e.get("rs", []) if r_ and r_[0] == 0)}
+
+
 def run_common(chk, replay, prop, profiles):
     w = core.workdir(prop.lower())
+    if replay and replay["event"].get("op") == "squfof_batch":
+        squfof_layer(chk, w, replay)
+        return
     if replay and replay["event"].get("op") == "cli":
         cli_layer(chk, prop, w, [replay["event"].get("profile", "release")], replay)
         return
@@ -175,6 +210,8 @@ def run_common(chk, replay, prop, profiles):
     bookkeeping(chk, prop, all_evs, nshapes)
     if prop in ("C01", "C03"):
         cli_layer(chk, prop, w, profiles, replay)
+    if prop == "C01" and not replay:
+        squfof_layer(chk, w)
     chk.assumptions += [
         "TLC, SANY, CommunityModules Json/IOUtils/SequencesExt/FiniteSetsExt",
         "spec/lib/BigNat (self-tested against Python integers in setup)",
